@@ -12,8 +12,10 @@ EXTENDS PySeq, FiniteSets
 CONSTANTS MinB, MaxB
 
 Size(x) == x[2]
-RECURSIVE SumSizes(_)
-SumSizes(s) == IF s = <<>> THEN 0 ELSE Size(Head(s)) + SumSizes(Tail(s))
+\* by index, not by Head / Tail: Tail copies the sequence, which makes the sum quadratic on the long vectors of real traces
+RECURSIVE SumUpTo(_, _)
+SumUpTo(s, i) == IF i = 0 THEN 0 ELSE SumUpTo(s, i - 1) + Size(s[i])
+SumSizes(s) == SumUpTo(s, Len(s))
 
 \* what the operation asks for: a new content, or a Python-level error
 Ask(op, s) ==
